@@ -1,0 +1,11 @@
+//go:build !verif
+
+// Package verifhook provides yield points for model-based conformance checking.
+// With the build tag `verif` off every call is an empty inlineable function.
+package verifhook
+
+// Enabled reports whether hooks are compiled in.
+const Enabled = false
+
+// Yield is a no-op without the verif build tag.
+func Yield(point string, a, b uint64) {}
